@@ -34,7 +34,7 @@ COMPONENTS = {
 ASSUMPTIONS = [
     "tolerance = (1 + rho + 0.5|1-s|)/s + 0.6 original pixels: the statement's one output pixel, size-rounding rho<=1 per resize stage "
     "(int()/round() of image sizes vs exact coordinate scaling), the half-pixel convention gap of keypoints*scale, and 0.6 px decode slack",
-    "only keypoints whose 2x2 neighbourhood in the output is image content (not padding) are decoded",
+    "only keypoints whose 2x2 neighbourhood in the output is image content (not padding, and not blended with padding by more than 0.3 px worth) are decoded",
     "in-memory datasets only (8-bit PIL quantisation of the npz path is C18's business)",
 ]
 TIERS = {
@@ -183,7 +183,12 @@ def decode(img, pts, level, lvl_tol=2.0):
             continue
         fx, fy = x - x0, y - y0
         nb = im[:, y0:y0 + 2, x0:x0 + 2]
-        if float((nb[2] - level).abs().max()) > lvl_tol:
+        dev = float((nb[2] - level).abs().max())
+        if dev > lvl_tol:
+            continue
+        # a pixel that an interpolating step blended with padding (outside the frame) keeps a frame level within lvl_tol but
+        # its coordinate channels are off by the same fraction of a much larger number: decode only where that bound is small
+        if dev * float(max(nb[0].max(), nb[1].max())) / max(level, 1.0) > 0.3:
             continue
         w = torch.tensor([[(1 - fx) * (1 - fy), fx * (1 - fy)], [(1 - fx) * fy, fx * fy]], dtype=torch.double)
         out[k, 0] = float((nb[0] * w).sum()) - dw.OFFSET
